@@ -51,7 +51,12 @@ impl Prop for C10 {
             }
         }
         for cmd in ["encrypt", "decrypt", "pass-encrypt", "pass-decrypt", "key-generate"] { for plen in [100usize, 70000] { if cmd == "key-generate" && plen > 100 { continue; }
-            v.push(case(&[("op", "cli-devfull".into()), ("cmd", cmd.into()), ("plen", plen.to_string()), ("seed", rng.next().to_string())])); } }
+            v.push(case(&[("op", "cli-devfull".into()), ("cmd", cmd.into()), ("plen", plen.to_string()), ("seed", rng.next().to_string())]));
+            // the same failure through the other wiring: no -o, standard output on the full device / on a pipe whose reader goes away after 10 bytes
+            // (the second only for outputs larger than a pipe buffer, so that a write really happens after the reader left)
+            v.push(case(&[("op", "cli-devfull".into()), ("cmd", cmd.into()), ("plen", plen.to_string()), ("sink", "stdout-devfull".into()), ("seed", rng.next().to_string())]));
+            if cmd != "key-generate" { v.push(case(&[("op", "cli-devfull".into()), ("cmd", cmd.into()), ("plen", (1usize << 20).to_string()), ("sink", "stdout-closed".into()), ("seed", rng.next().to_string())])); }
+        } }
         for _ in 0..(if th { 3000 } else { 300 }) {
             v.push(case(&[("op", (*rng.pick(&["enc", "dec"])).into()), ("cs", rng.range(1, 3).to_string()), ("lens", "rand".into()), ("multi", "1".into()), ("seed", rng.next().to_string())]));
         }
@@ -71,9 +76,14 @@ impl Prop for C10 {
                 env: vec![("KESTREL_PASSWORD".into(), match cmd { "decrypt" => fx.bob.pw.into(), "encrypt" => fx.alice.pw.into(), _ => pw.into() })], stdin: b"devfull\n".to_vec() };
             let args: Vec<String> = match cmd { "encrypt" => sv(&["encrypt", "in.bin", "-t", "bob", "-f", "alice", "-o", "/dev/full", "-k", "kr.txt", "--env-pass"]), "decrypt" => sv(&["decrypt", "in.bin", "-t", "bob", "-o", "/dev/full", "-k", "kr.txt", "--env-pass"]),
                 "pass-encrypt" => sv(&["password", "encrypt", "in.bin", "-o", "/dev/full", "--env-pass"]), "pass-decrypt" => sv(&["password", "decrypt", "in.bin", "-o", "/dev/full", "--env-pass"]), _ => sv(&["key", "generate", "-o", "/dev/full", "--env-pass"]) };
-            let obs = run_kestrel(&world, &args);
-            o.impl_obs = format!("exit={:?} stderr={:?}", obs.exit, obs.stderr.lines().last().unwrap_or("").chars().take(80).collect::<String>()); o.model_obs = "a failing write is an error".into();
-            o.tags.push(format!("cli /dev/full {} -> exit {:?}", cmd, obs.exit)); o.nontrivial = Some(format!("devfull/{}/{}", cmd, plen));
+            let sink = get(c, "sink");
+            let args: Vec<String> = if sink.is_empty() { args } else { let mut a = vec![]; let mut skip = false; for x in args { if skip { skip = false; continue; } if x == "-o" { skip = true; continue; } a.push(x); } a };
+            let obs = match sink { "stdout-devfull" => run_kestrel_wired(&world, &args, &Wiring { stdout: StdoutMode::DevFull, links: vec![] }),
+                "stdout-closed" => run_kestrel_wired(&world, &args, &Wiring { stdout: StdoutMode::CloseAfter(10), links: vec![] }), _ => run_kestrel(&world, &args) };
+            o.impl_obs = format!("exit={:?} signal={} stderr={:?}", obs.exit, obs.signal, obs.stderr.lines().last().unwrap_or("").chars().take(80).collect::<String>()); o.model_obs = "a failing write is an error".into();
+            o.tags.push(format!("cli {} {} -> exit {:?}", if sink.is_empty() { "-o /dev/full" } else { sink }, cmd, obs.exit)); o.nontrivial = Some(format!("devfull/{}/{}/{}", cmd, plen, sink));
+            // a reader that went away may also end the tool by SIGPIPE; what must not happen is a report of success
+            if sink == "stdout-closed" { if obs.exit == Some(0) || obs.timed_out { o.oracle_fail = Some(("write-failure-surfaces".into(), format!("kestrel {} with standard output on a pipe whose reader left after 10 bytes ({} bytes to deliver): exit {:?} ({:?})", args.join(" "), plen, obs.exit, obs.stderr.trim().chars().take(120).collect::<String>()))); } return o; }
             if obs.exit != Some(1) || !obs.error_line() { o.oracle_fail = Some(("write-failure-surfaces".into(), format!("kestrel {}: every write to the output fails (ENOSPC) but the tool exited {:?} ({:?})", args.join(" "), obs.exit, obs.stderr.trim().chars().take(120).collect::<String>()))); }
             return o;
         }
